@@ -87,16 +87,6 @@ def runPred (args : List Sexp) : Option Sexp := do
     pure (node "res" [id, mkBool (t.pred d), mkStr t.code, .list (t.params.map fun (k, v) => .list [mkStr k, mkStr v])])
   | _ => none
 
-/-- table of named custom coercers (WithCoercer) -/
-def namedCoercer : String → Option (Val → Option DVal)
-  | "plus100" => some fun v => match v with
-    | .int .int n => some (.int .int (n + 100))
-    | _ => none
-  | "strlen" => some fun v => match v with
-    | .str s => some (.int .int s.utf8ByteSize)
-    | _ => none
-  | _ => none
-
 def call? (o : Oracle) : Sexp → Option Builder.Call
   | .list [.atom "not"] => some .not
   | .list [.atom "t", t] => do
